@@ -51,10 +51,37 @@ func (s *statsT) final(group, dig string) {
 	m[dig]++
 }
 
+// pnode is a shared, immutable prefix of state-changing events (jobs of a
+// subtree share their common part instead of copying it).
+type pnode struct {
+	parent *pnode
+	e      Ev
+	n      int
+}
+
+func (p *pnode) push(e Ev) *pnode {
+	n := 1
+	if p != nil {
+		n = p.n + 1
+	}
+	return &pnode{parent: p, e: e, n: n}
+}
+
+func (p *pnode) list() []Ev {
+	if p == nil {
+		return nil
+	}
+	out := make([]Ev, p.n)
+	for q := p; q != nil; q = q.parent {
+		out[q.n-1] = q.e
+	}
+	return out
+}
+
 type job struct {
 	c      *confT
 	ci     int
-	prefix []Ev
+	prefix *pnode
 	budget int
 	used   int // deviation cost spent
 	devs   int // non-default events in the prefix (queue priority: simplest traces first)
@@ -84,19 +111,28 @@ type explorer struct {
 	cond    *sync.Cond
 	queues  [][]job
 	active  int
-	visited map[string]int
+	queued  int
+	visited map[[12]byte]int8
 	seenV   map[string]bool
 	stop    bool
 }
 
 func newExplorer(r *vk.Run, st *statsT) *explorer {
-	x := &explorer{r: r, st: st, visited: map[string]int{}, seenV: map[string]bool{}}
+	x := &explorer{r: r, st: st, visited: map[[12]byte]int8{}, seenV: map[string]bool{}}
 	x.cond = sync.NewCond(&x.mu)
 	return x
 }
 
+const maxQueued = 3_000_000 // memory guard: beyond this the run is reported as not exhaustive
+
 func (x *explorer) push(j job) {
 	x.mu.Lock()
+	if x.queued >= maxQueued {
+		x.mu.Unlock()
+		x.r.Capped()
+		return
+	}
+	x.queued++
 	for len(x.queues) <= j.devs {
 		x.queues = append(x.queues, nil)
 	}
@@ -115,7 +151,9 @@ func (x *explorer) pop() (job, bool) {
 		for l := range x.queues {
 			if q := x.queues[l]; len(q) > 0 {
 				j := q[0]
+				q[0] = job{}
 				x.queues[l] = q[1:]
+				x.queued--
 				x.active++
 				return j, true
 			}
@@ -138,14 +176,16 @@ func (x *explorer) finish() {
 // visit records that key is being expanded with the given remaining budget;
 // false if it was already expanded with at least that budget.
 func (x *explorer) visit(ci int, key string, budget int) (first, ok bool) {
-	k := fmt.Sprintf("%d|%s", ci, key)
+	sum := sha256.Sum256([]byte(fmt.Sprintf("%d|%s", ci, key)))
+	var k [12]byte
+	copy(k[:], sum[:12])
 	x.mu.Lock()
 	defer x.mu.Unlock()
 	b, seen := x.visited[k]
-	if seen && b >= budget {
+	if seen && int(b) >= budget {
 		return false, false
 	}
-	x.visited[k] = budget
+	x.visited[k] = int8(budget)
 	return !seen, true
 }
 
@@ -257,14 +297,16 @@ func (x *explorer) runJob(j job) {
 		x.report(c, r, v)
 		return
 	}
-	for _, e := range j.prefix {
+	cur := j.prefix
+	pre := j.prefix.list()
+	for _, e := range pre {
 		if v = r.do(e); v != nil {
 			break
 		}
 	}
-	if len(j.prefix) > 0 {
+	if len(pre) > 0 {
 		x.st.transitions.Inc()
-		last := j.prefix[len(j.prefix)-1]
+		last := pre[len(pre)-1]
 		x.st.outcome("event:" + last.K)
 		if last.K == "crash" {
 			x.st.crashStates.Add(fmt.Sprintf("%d|%s", j.ci, r.persistedDigest()))
@@ -307,10 +349,7 @@ func (x *explorer) runJob(j job) {
 			if a.cost > budget {
 				return
 			}
-			base := stateEvents(r.tr)
-			pf := make([]Ev, len(base)+1)
-			copy(pf, base)
-			pf[len(base)] = a.e
+			pf := cur.push(a.e)
 			x.st.forks.Inc()
 			x.st.outcome(fmt.Sprintf("fork:%s:cost%d:from-used%d", a.e.K, a.cost, j.used))
 			x.push(job{c: c, ci: j.ci, prefix: pf, budget: budget - a.cost, used: j.used + a.cost, devs: j.devs + 1})
@@ -358,6 +397,7 @@ func (x *explorer) runJob(j job) {
 			fork(a)
 		}
 		v = r.do(*def)
+		cur = cur.push(*def)
 		x.st.transitions.Inc()
 		x.st.outcome("event:" + def.K)
 	}
